@@ -534,9 +534,11 @@ PROPS.update({
                      extra_verdicts(l2gen.gen_c14_error_case, 48, 600)),
     ),
     'C15': dict(
-        explanation='theorems: the impls are the same through either entry point, for merged and split lists, in list order (entry_equiv_*, split_equiv, order_preserved). Metamorphic real-vs-real comparisons need no model: attribute macro vs #[derive(Ex)], merged vs split, one trait alone vs with the others.',
+        explanation='theorems: the impls are the same through either entry point, for merged and split lists, in list order (entry_equiv_*, split_equiv, order_preserved); an entry of the list yields the same impls under any two co-derived sets when the item carries no helper attribute that belongs only to the other traits (struct_any_coderived_set, enum_any_coderived_set). Metamorphic real-vs-real comparisons need no model: attribute macro vs #[derive(Ex)], merged vs split, one trait alone vs with the others.',
         theorems=[('DeriveExModel.Props.Tables', ['DX.isMatch_table_model', 'DX.isMatch_table_doc', 'DX.isMatch_table_complete']), ('DeriveExModel.Props.DocTables', ['DX.doc_attr_trait_table', 'DX.doc_attr_trait_complete', 'DX.doc_affects_table']), (CMP + 'C15', ['DX.entry_equiv_struct', 'DX.entry_equiv_enum', 'DX.entry_equiv_segments_struct',
-                                 'DX.entry_equiv_segments_enum', 'DX.split_equiv', 'DX.order_preserved', 'DX.fromAttrs_congr'])],
+                                 'DX.entry_equiv_segments_enum', 'DX.split_equiv', 'DX.order_preserved', 'DX.fromAttrs_congr']),
+                  (CMP + 'C15Co', ['DX.struct_any_coderived_set', 'DX.enum_any_coderived_set', 'DX.struct_entry_codrived_independent',
+                                   'DX.enum_entry_codrived_independent', 'DX.structCore_entries', 'DX.agreeOn_of_noneOnlyForOthers'])],
         l1=[('all', 4000, 150000), ('cmp1all', 20000, 'all'), ('bounds', 2000, 50000)],
         labels=r'^e\d+:|^err$',
         extra=extra_meta('c15', 3000, 60000),
